@@ -358,7 +358,7 @@ func (p *c10Parser) run(text c10Val) c10ParseResult {
 			res.problem = "return shape"
 			return res
 		}
-		if o.Res[1].K != c10VErr {
+		if !c10NonNilError(o.Res[1]) {
 			allErr = false
 		}
 	}
@@ -717,3 +717,9 @@ func (p *c10Parser) checkRejects() {
 }
 
 var _ = core.ModulePath
+
+// c10NonNilError: a provably non-nil error value: fmt.Errorf / errors.New / a failed strconv parse, or a struct
+// (pointer) value of a typed error returned as error.
+func c10NonNilError(v c10Val) bool {
+	return v.K == c10VErr || v.K == c10VStruct || v.K == c10VDyn
+}
